@@ -95,6 +95,10 @@ impl WalIndex {
         // this a power loss can bring back the previous cursor file and redeliver
         // entries whose consumption was already acknowledged.
         if let Some(dir) = std::path::Path::new(&self.path).parent() {
+            #[cfg(walrus_verif)]
+            crate::wal::verif::io(crate::wal::verif::Io::DirSync {
+                path: &dir.to_string_lossy(),
+            });
             fs::File::open(dir)?.sync_all()?;
         }
         Ok(())
